@@ -396,6 +396,11 @@ class Exec:
                 sv.add(*(list(hyps) + [neg]))
             r = sv.check()
             last = sv
+            if r == z3.unknown and name == 'batch':
+                # the same query in a fresh z3 process, early: the in-process context carries every term built so far,
+                # which changes the solver's term ordering; a fresh process regularly closes goals the loaded one does not
+                if self.prove_external(sv, T // 2) == z3.unsat:
+                    return z3.unsat, sv
             if r == z3.unsat:
                 return r, sv
             if r == z3.sat and hyps is self.hyps:
@@ -403,6 +408,30 @@ class Exec:
             if r == z3.sat and len(qf) == len(self.hyps):
                 return r, sv
         return z3.unknown, last
+
+    def prove_external(self, sv, tmo_ms):
+        import os as _os
+        import subprocess as _sp
+        import tempfile as _tf
+        try:
+            text = sv.to_smt2()
+        except Exception:
+            return z3.unknown
+        fd, fn_ = _tf.mkstemp(suffix='.smt2', prefix='vc_', dir=_os.environ.get('TMPDIR', '/tmp'))
+        try:
+            with _os.fdopen(fd, 'w') as fh:
+                fh.write(text)
+            secs = max(5, tmo_ms // 1000)
+            r = _sp.run(['z3-new', '-T:%d' % secs, fn_], capture_output=True, text=True, timeout=secs + 10)
+            first = (r.stdout.strip().splitlines() or [''])[0].strip()
+            return z3.unsat if first == 'unsat' else z3.unknown
+        except Exception:
+            return z3.unknown
+        finally:
+            try:
+                _os.remove(fn_)
+            except OSError:
+                pass
 
     def minimise(self, s):
         """prefer counterexamples with small magnitudes (replays allocate arrays of a few elements)"""
@@ -693,6 +722,9 @@ class Exec:
                 pass
         m = getattr(self, 'ev_' + k, None)
         if m is None:
+            if k == 'SubstNonTypeTemplateParmExpr':
+                # [parameter declaration, substituted value]: the value is the last child
+                return self.ev(node['inner'][-1])
             if k in TRANSPARENT:
                 return self.ev(node['inner'][0])
             raise Unsupported('expression kind %s at line %s' % (k, node.get('_line')))
